@@ -223,7 +223,14 @@ class Translator:
         return sp.Piecewise((self.tr(n.body), as_bool(self.tr(n.test))), (self.tr(n.orelse), True))
 
     def t_Tuple(self, n):
-        return sp.Tuple(*[self.tr(e) for e in n.elts])
+        out = []
+        for e in n.elts:
+            v = self.tr(e)
+            if isinstance(e, ast.Starred) and getattr(getattr(v, "func", None), "__name__", "") == "splat" and isinstance(v.args[0], sp.Tuple):
+                out.extend(v.args[0])           # (a, *(b, c)) is (a, b, c)
+            else:
+                out.append(v)
+        return sp.Tuple(*out)
 
     t_List = t_Tuple
 
